@@ -87,36 +87,87 @@ class RefFail(Exception):
     pass
 
 
-def walk(term, mode, counter, log):
-    """lexical reference: emits (tag, mode) in evaluation order; raises RefFail on failure"""
+def iterate(v):
+    if isinstance(v, (list, tuple)):
+        return list(v)
+    if isinstance(v, dict):
+        return list(v.keys())
+    raise RefFail()   # UnregisteredTarget is a GlomError
+
+
+def walk(term, mode, counter, log, target, acc=None):
+    """lexical reference with exact value flow (probes are identities): emits (tag, mode) in
+    evaluation order, returns the value, raises RefFail on a GlomError-class failure.
+    *acc* maps a plain-list node (by id of the term) to its Group accumulator."""
     k = term[0]
     if k in ('P', 'F'):
         counter[0] += 1
         log.append(('p%d' % counter[0], mode))
         if k == 'F':
             raise RefFail()
-        return
-    if k in WRAP:
-        return walk(term[1], k, counter, log)
-    if k in ('pipe', 'and'):
-        # tags are assigned at build time in term order, so number all children first
-        return seq(term[1], mode, counter, log, 'all')
-    if k in ('tuple', 'list', 'dict'):
-        assert mode in ('auto', 'fill') or (mode == 'group' and k == 'list'), (term, mode)
-        return seq(term[1], mode, counter, log, 'all')
-    if k in ('coalesce', 'or'):
-        return seq(term[1], mode, counter, log, 'first')
+        return target
+    if k in ('auto', 'fill', 'match'):
+        return walk(term[1], k, counter, log, target, acc)
+    if k == 'group':
+        start = counter[0]
+        counter[0] += count_probes(term[1])
+        ret = [] if term[1][0] == 'list' else {} if term[1][0] == 'dict' else None
+        my_acc = {}
+        for item in iterate(target):
+            ret = walk(term[1], 'group', [start], log, item, my_acc)
+        return ret
     if k == 'switch':
         pairs = []
         for a, b in term[1]:
             pairs.append((a, numbering(a, counter), b, numbering(b, counter)))
         for a, na, b, nb in pairs:
             try:
-                walk(a, mode, [na], log)
+                walk(a, mode, [na], log, target, acc)
             except RefFail:
                 continue
-            return walk(b, mode, [nb], log)
+            return walk(b, mode, [nb], log, target, acc)
         raise RefFail()
+    kids = term[1]
+    starts = [numbering(kid, counter) for kid in kids]
+    ev = lambda i, t: walk(kids[i], mode, [starts[i]], log, t, acc)
+    if k == 'pipe' or (k == 'tuple' and mode == 'auto'):
+        cur = target
+        for i in range(len(kids)):
+            cur = ev(i, cur)
+        return cur
+    if k == 'and':
+        res = target
+        for i in range(len(kids)):
+            res = ev(i, target)
+        return res
+    if k in ('coalesce', 'or'):
+        last = None
+        for i in range(len(kids)):
+            try:
+                return ev(i, target)
+            except RefFail as f:
+                last = f
+        raise last or RefFail()
+    if k == 'tuple':
+        assert mode == 'fill', (term, mode)
+        return tuple(ev(i, target) for i in range(len(kids)))
+    if k == 'dict':
+        assert mode in ('auto', 'fill'), (term, mode)
+        return {('k%d' % i): ev(i, target) for i in range(len(kids))}
+    if k == 'list':
+        if mode == 'fill':
+            return [ev(i, target) for i in range(len(kids))]
+        if mode == 'auto':
+            assert len(kids) == 1
+            out = []
+            for item in iterate(target):
+                out.append(walk(kids[0], mode, [starts[0]], log, item, acc))
+            return out
+        assert mode == 'group', (term, mode)
+        lst = acc.setdefault(id(term), [])
+        for i in range(len(kids)):
+            lst.append(ev(i, target))
+        return lst
     raise AssertionError(term)
 
 
@@ -138,22 +189,6 @@ def numbering(term, counter):
     return start
 
 
-def seq(kids, mode, counter, log, how):
-    starts = [numbering(kid, counter) for kid in kids]
-    last = None
-    for kid, st in zip(kids, starts):
-        try:
-            walk(kid, mode, [st], log)
-            if how == 'first':
-                return
-        except RefFail as f:
-            if how == 'all':
-                raise
-            last = f
-    if how == 'first':
-        raise last or RefFail()
-
-
 def mk_target():
     return [[[[[[[0]]]]]]]
 
@@ -164,14 +199,12 @@ def run_lexical(case):
     spec = build(full, [0])
     want_log = []
     try:
-        walk(full, 'auto', [0], want_log)
-        want = 'ok'
+        want = 'ok:' + repr(walk(full, 'auto', [0], want_log, mk_target(), {}))
     except RefFail:
         want = 'fail'
     del LOG[:]
     try:
-        glom(mk_target(), spec)
-        got = 'ok'
+        got = 'ok:' + repr(glom(mk_target(), spec))
     except GlomError as e:
         got = 'fail'
     except Exception as e:
@@ -180,8 +213,8 @@ def run_lexical(case):
     if log != want_log or got != want:
         diff = [i for i, (a, b) in enumerate(zip(log, want_log)) if a != b][:1]
         return R({'expected': '%s, modes %r' % (want, want_log), 'observed': '%s, modes %r' % (got, log), 'spec': repr(spec),
-                  'first_difference_at_probe': diff}, want)
-    return R(None, want, nontrivial=any(m != 'auto' for _, m in want_log), steps=len(log),
+                  'first_difference_at_probe': diff}, want[:4])
+    return R(None, want[:4], nontrivial=any(m != 'auto' for _, m in want_log), steps=len(log),
              tags={m for _, m in want_log} | {term[0]})
 
 
